@@ -557,7 +557,7 @@ def run(ctx):
                 'real numerics (tolerance 1e-9 against the plain-numpy specification): get_next_imf_mask nphases 1..8, zero amplitude, '
                 'nprocesses; mask_sift x 4 sources x 3 amplitude modes x scalar/array x step factors {2, 3, 1.5, 4}.  '
                 'non-trivial = non-zero amplitude and at least one sifting iteration path (an IMF was returned), or >= 2 layers')
-    ctx.proof()
+    ctx.proof(extra=['props/Prop_Tie_Mask.v'])  # translation tie: program regenerated from the source + refinement theorems
     procs_all = [1, 2, 3] if quick else [1, 2, 3, 4, 5, 6, 7, 8]
     bad = []
 
